@@ -42,10 +42,12 @@ func idIndex(s string) int {
 	return -1
 }
 
-func txHash(s uint64, i, k int) felt.Felt  { return chain.FV(0x7000000 + s*0x1000 + uint64(i)*0x100 + uint64(k)) }
-func val(s uint64, i, k int) uint64        { return 0x100000 + s*0x1000 + uint64(i+1)*0x100 + uint64(k) + 1 }
-func addrD(s uint64, i int) felt.Felt      { return chain.FV(0xD0000 + s*16 + uint64(i)) }
-func classIdx(s uint64, i int) int         { return 10 + int(s)*3 + i }
+func txHash(s uint64, i, k int) felt.Felt {
+	return chain.FV(0x7000000 + s*0x1000 + uint64(i)*0x100 + uint64(k))
+}
+func val(s uint64, i, k int) uint64   { return 0x100000 + s*0x1000 + uint64(i+1)*0x100 + uint64(k) + 1 }
+func addrD(s uint64, i int) felt.Felt { return chain.FV(0xD0000 + s*16 + uint64(i)) }
+func classIdx(s uint64, i int) int    { return 10 + int(s)*3 + i }
 func classOf(s uint64, i int) (core.ClassDefinition, felt.Felt, felt.Felt) {
 	c, h, casm1, _ := chain.Sierra(classIdx(s, i))
 	return c, h, casm1
